@@ -7,20 +7,24 @@ P="$1"; ID="$2"
 WT=/tmp/wt/$P
 cd "$WT" || exit 2
 [ -f SEED/patch.diff ] || { echo "no SEED/patch.diff"; exit 2; }
+PKG=rasn-compiler-tests
+[ -f rasn-compiler/tests/seeded_demo.rs ] && PKG=rasn-compiler
 git checkout -q -- . 2>/dev/null
-cp SEED/seeded_demo.rs rasn-compiler-tests/tests/seeded_demo.rs
+mkdir -p $PKG/tests
+cp SEED/seeded_demo.rs $PKG/tests/seeded_demo.rs
 export CARGO_NET_OFFLINE=true
 echo "--- without patch"
-timeout 1500 cargo test --offline -p rasn-compiler-tests --test seeded_demo 2>&1 | grep -E "^test |test result|error" | head -12
+timeout 1500 cargo test --offline -p $PKG --test seeded_demo 2>&1 | grep -E "^test |test result|error" | head -12
 git apply SEED/patch.diff || { echo "patch does not apply to worktree HEAD"; exit 2; }
 echo "--- with patch"
-timeout 1500 cargo test --offline -p rasn-compiler-tests --test seeded_demo 2>&1 | grep -E "^test |test result|error|overflow" | head -12
+timeout 1500 cargo test --offline -p $PKG --test seeded_demo 2>&1 | grep -E "^test |test result|error|overflow" | head -12
 echo "--- suite with patch (demo aside)"
-mv rasn-compiler-tests/tests/seeded_demo.rs /tmp/wt/$P.demo.rs
+mv $PKG/tests/seeded_demo.rs /tmp/wt/$P.demo.rs
 timeout 3000 cargo test --offline --workspace 2>&1 | grep -E "test result" | awk '{p+=$4; f+=$6} END {print "passed=" p " failed=" f}'
-mv /tmp/wt/$P.demo.rs rasn-compiler-tests/tests/seeded_demo.rs
+mv /tmp/wt/$P.demo.rs $PKG/tests/seeded_demo.rs
 mkdir -p /verif/seeded/$ID
 cp SEED/patch.diff SEED/seeded_demo.rs /verif/seeded/$ID/
 [ -f SEED/README.md ] && cp SEED/README.md /verif/seeded/$ID/
+echo "demo package: $PKG"
 echo "--- checks"
 /verif/tools/seed_eval.sh "$ID"
